@@ -119,7 +119,7 @@ def file_desc(rng, medium, big_ok=True, ml_only=False, unique=None, max_granules
     else:
         kind = "ml" if ml_only else rng.choice(["ml", "ml", "basic", "ascii", "data"])
         if kind == "ml":
-            ftype, dtype = 2, 0x00
+            ftype, dtype = 2, (0xFF if rng.chance(0.04) else 0x00)     # type 2 with the ASCII flag set is still a machine-language file
         elif kind == "basic":
             ftype, dtype = 0, 0x00
         elif kind == "ascii":
